@@ -3,12 +3,12 @@ service) and the arithmetic / route-builder part (route: Timelock.tla against th
 import time
 
 import vp
-from engines import route, swapfsm, tx
+from engines import peersync, route, swapfsm, tx
 
 PARTS = {"C04": "C04R", "C05": "C05R"}
 
 
-def run_tx(prop, txprop, tier):
+def run_tx(prop, txprop, tier, mod=tx):
     """C01 = FSM clause (when the taker pays; swapfsm) + validator clause (which transactions the real validators accept; tx).
     C08 = message assembly and invoice clauses (swapfsm) + txid / vout / blinding key of the real opening paths (tx)."""
     t0 = time.time()
@@ -18,7 +18,7 @@ def run_tx(prop, txprop, tier):
         if x["sig"].startswith(prop + "|"):
             ver.add(x["sig"], vp.save_replay(prop, "sched-%s.json" % vp.sig_id(x["sig"]), dict(signature=x["sig"], schedule=x["schedule"])))
     rc1 = ver.report()
-    rc2 = tx.run(txprop, tier)      # prints its own VIOLATION / KNOWN-FINDING lines under the parent property id
+    rc2 = mod.run(txprop, tier)      # prints its own VIOLATION / KNOWN-FINDING lines under the parent property id
     if rc2 not in (0, 1):
         raise vp.Fatal("tx part failed")
     import json
@@ -42,6 +42,8 @@ def run(prop, tier):
         return run_tx("C01", "C01V", tier)
     if prop == "C08":
         return run_tx("C08", "C08", tier)
+    if prop == "C26":   # FSM clause (quarantine after a CSV refund; swapfsm) + peer-sync clause (suspicious peers are neither answered nor stored; peersync)
+        return run_tx("C26", "C26", tier, mod=peersync)
     t0 = time.time()
     ver = vp.Verdicts(prop)
     r = swapfsm.run_all(tier)
